@@ -51,6 +51,36 @@ def run(ctx):
     ctx.validate(s.trace, label='globs')
     if not srv.alive():
         srv.restart()
+    # key-space views (DBSIZE, KEYS, RANDOMKEY, EXISTS, TYPE, SCAN) right after the deadline of a time to live that a later
+    # command discarded, moved away or outlived — before the sweeper's next pass can repair any index or cache
+    import time
+    s = workloads.fresh_session(ctx, srv, 'ttlviews')
+    views = [[b'DBSIZE'], [b'KEYS', b'*'], [b'EXISTS', b'k', b'other'], [b'TYPE', b'k'], [b'RANDOMKEY'], [b'SCAN', b'0', b'COUNT', b'100'],
+             [b'GET', b'k'], [b'PTTL', b'k'], [b'DBSIZE']]
+    mk = [[b'SET', b'k', b'v', b'PX', b'60']]
+    stories = [mk + [[b'SET', b'k', b'v2']], mk + [[b'GETSET', b'k', b'v2']], mk + [[b'MSET', b'k', b'v2', b'other', b'x']], mk + [[b'PERSIST', b'k']],
+               mk + [[b'PEXPIRE', b'k', b'600000']], mk + [[b'RENAME', b'k', b'other']], mk + [[b'RENAME', b'k', b'other'], [b'SET', b'k', b'fresh']],
+               mk + [[b'DEL', b'k'], [b'SET', b'k', b'v3']], mk + [[b'APPEND', b'k', b'x'], [b'INCR', b'n']], mk + [[b'SET', b'k', b'v2', b'PX', b'600000']],
+               mk + [[b'SET', b'k', b'v2', b'XX']], mk + [[b'SETRANGE', b'k', b'0', b'V']], mk, [[b'SETEX', b'k', b'1', b'v'], [b'PEXPIRE', b'k', b'60'], [b'SET', b'k', b'w']],
+               [[b'PSETEX', b'k', b'60', b'v'], [b'SETNX', b'k', b'w'], [b'SET', b'other', b'o', b'PX', b'60'], [b'SET', b'other', b'o2']]]
+    try:
+        c = s.open()
+        for st in stories:
+            s.cmd(c, [b'FLUSHALL'])
+            s.cmd(c, [b'SET', b'stays', b'1'])
+            for a in st:
+                s.cmd(c, a)
+            for a in views[:3]:
+                s.cmd(c, a)
+            time.sleep(0.075)
+            for a in views:
+                s.cmd(c, a)
+    except ServerDied:
+        pass
+    s.close_all()
+    ctx.validate(s.trace, label='ttlviews')
+    if not srv.alive():
+        srv.restart()
     # integer positions written in spellings the reference refuses ('+5', '007', '-0'): open finding lenient_int
     workloads.lenient_int_history(ctx, srv, 'strings')
     ctx.extra_cov['form_segments'] = nf
